@@ -10,9 +10,11 @@ EXTRA = {
     # property -> [(module, theorem, status, guard)]
 }
 USES = {
-    # properties whose check also relies on theorems of other property files
+    # properties whose check also relies on theorems proved in other property files
     "C28": ["C10"],
-    "C01": ["C10", "C11", "C12"], "C02": ["C10", "C11", "C12"], "C03": ["C10", "C11", "C12"],
+    "C01": ["C10", "C11", "C12"], "C02": ["C09", "C01", "C10", "C11", "C12"], "C03": ["C10", "C11", "C12"],
+    "C04": ["C13"], "C05": ["C13"], "C06": ["C13"], "C07": ["C01", "C13"], "C08": ["C10", "C13"],
+    "C16": ["C26", "C14"], "C25": ["C26"], "C17": ["C01"],
 }
 idx = {}
 for fn in sorted(os.listdir(PROPS)):
